@@ -291,7 +291,52 @@ fn waiting_sign_inside_a_conjunct(run: &Run) {
     );
 }
 
+/// An independent vowel typed as hasanta + vowel-sign key right after a syllable that carried a left-standing sign (the
+/// sign was lifted when the hasanta came and has to go back where it was): then a plain consonant, then one backspace.
+/// Typewriter order with the option on against Unicode order with it off, after every key.
+fn vowel_via_hasanta_after_a_left_sign(run: &Run) {
+    let inv = layout_inverse(Layout::Synthetic);
+    let k = |v: &str| -> K { *inv.get(v).unwrap_or_else(|| panic!("synthetic layout lacks {v:?}")) };
+    let has = k("\u{09CD}");
+    let items: Vec<u32> = (0..8).collect();
+    run.exhaustive(
+        "independent-vowel-typed-as-hasanta-plus-sign-after-a-left-standing-sign",
+        &items,
+        |_| Sandbox::new(),
+        |&bits, st, sb| {
+            let pair = mk_pair(bits, sb)?;
+            for c1 in ["\u{0995}", "\u{09B8}", "\u{09B0}", "\u{09DF}"] {
+                for l in ["\u{09BF}", "\u{09C7}", "\u{09C8}"] {
+                    for v in ["\u{09BF}", "\u{09C1}", "\u{09BE}", "\u{09C7}", "\u{09C0}"] {
+                        for c2 in ["\u{09AC}", "\u{0995}"] {
+                            let case = || json!({"option_bits": bits, "vowel_via_hasanta": [c1, l, v, c2]});
+                            let pf = |p: crate::driver::PanicInfo| Failure::new(panic_kind(&p), p.to_string(), case());
+                            pair.on.finish().map_err(pf)?;
+                            pair.off.finish().map_err(pf)?;
+                            let unicode = [k(c1), k(l), has, k(v), k(c2)];
+                            let typewriter = [k(l), k(c1), has, k(v), k(c2)];
+                            let a = type_keys(&pair.off, &unicode, &case)?;
+                            let b = type_keys(&pair.on, &typewriter, &case)?;
+                            if a != b {
+                                return Err(Failure::new("order-divergence", format!("{c1:?} with sign {l:?}, then hasanta + sign key {v:?}, then {c2:?}: Unicode order/option off gives {a:?}, typewriter order/option on gives {b:?}"), case()));
+                            }
+                            let (ba, bb) = (pair.off.backspace(false).map_err(pf)?, pair.on.backspace(false).map_err(pf)?);
+                            if ba.text != bb.text {
+                                return Err(Failure::new("order-divergence", format!("one backspace after {a:?}: option off leaves {:?}, option on leaves {:?}", ba.text, bb.text), case()));
+                            }
+                            st.evals(1);
+                        }
+                    }
+                }
+            }
+            st.label("vowel-via-hasanta-after-left-sign");
+            Ok(())
+        },
+    );
+}
+
 pub fn run(run: &Run) {
+    vowel_via_hasanta_after_a_left_sign(run);
     waiting_sign_inside_a_conjunct(run);
     wide_pass(run);
     let us = units();
@@ -342,6 +387,22 @@ pub fn run(run: &Run) {
 
 pub fn replay(_run: &Run, case: &Value) -> Result<(), Failure> {
     let bits = case["option_bits"].as_u64().unwrap_or(0) as u32;
+    if let Some(w) = case["vowel_via_hasanta"].as_array() {
+        let inv = layout_inverse(Layout::Synthetic);
+        let g = |i: usize| -> K { inv.get(w[i].as_str().unwrap_or_default()).copied().unwrap_or((0, 0)) };
+        let has = inv.get("\u{09CD}").copied().unwrap_or((0, 0));
+        let sb = Sandbox::new();
+        let pair = mk_pair(bits, &sb)?;
+        let c = || case.clone();
+        let a = type_keys(&pair.off, &[g(0), g(1), has, g(2), g(3)], &c)?;
+        let b = type_keys(&pair.on, &[g(1), g(0), has, g(2), g(3)], &c)?;
+        let pf = |p: crate::driver::PanicInfo| Failure::new(panic_kind(&p), p.to_string(), case.clone());
+        let (ba, bb) = (pair.off.backspace(false).map_err(pf)?, pair.on.backspace(false).map_err(pf)?);
+        if a != b || ba.text != bb.text {
+            return Err(Failure::new("order-divergence", format!("{a:?} vs {b:?}; after one backspace {:?} vs {:?}", ba.text, bb.text), case.clone()));
+        }
+        return Ok(());
+    }
     if let Some(w) = case.get("waiting_sign_inside_conjunct") {
         let inv = layout_inverse(Layout::Synthetic);
         let g = |v: &str| -> K { inv.get(v).copied().unwrap_or((0, 0)) };
